@@ -252,13 +252,18 @@ def _sign_convention(res, index):
         detail = ""
         for node in ast.walk(f.node):
             if pol == "neg" and isinstance(node, ast.UnaryOp) and isinstance(node.op, ast.USub):
-                s = ast.unparse(node.operand).replace(" ", "")
-                if s.endswith("[:,3]") or s.endswith("[3]"):
+                chain = _expanded(node.operand, f.node).replace(" ", "").split("<-")
+                if any(c_.endswith("[:,3]") or c_.endswith("[3]") for c_ in chain):
                     ok = True
             if pol == "add" and isinstance(node, ast.BinOp) and isinstance(node.op, ast.Add):
-                l, r = ast.unparse(node.left).replace(" ", ""), ast.unparse(node.right).replace(" ", "")
-                # (projection of the points on the normals) + offsets, in either order, neither side negated
-                if (l.endswith("[:,3]") and not l.startswith("-")) != (r.endswith("[:,3]") and not r.startswith("-")):
+                # (projection of the points on the normals) + offsets, in either order, neither side negated;
+                # operands are looked through local temporaries
+                def _is_offsets(e_):
+                    if isinstance(e_, ast.UnaryOp) and isinstance(e_.op, ast.USub):
+                        return False
+                    chain = _expanded(e_, f.node).replace(" ", "").split("<-")
+                    return any(c_.endswith("[:,3]") and not c_.startswith("-") for c_ in chain) and not any(c_.startswith("-") for c_ in chain)
+                if _is_offsets(node.left) != _is_offsets(node.right):
                     ok = True
             if pol == "negmax" and isinstance(node, ast.UnaryOp) and isinstance(node.op, ast.USub):
                 op_ = node.operand
@@ -266,8 +271,12 @@ def _sign_convention(res, index):
                                                          (isinstance(op_.func, ast.Attribute) and op_.func.attr == "max"))
                 if is_max and "_point_plane_distances" in _expanded(op_, f.node):
                     ok = True
+        reads_col3 = any(isinstance(n_, ast.Subscript) and ast.unparse(n_).replace(" ", "").endswith(("[:,3]", "[3]", "[...,3]", ",3]"))
+                         for n_ in ast.walk(f.node)) or "_point_plane_distances" in ast.unparse(f.node)
         if ok:
             res.ok("SIGN-1", k)
+        elif not reads_col3:
+            raise AnalysisError(f"SIGN-1: {cname}.{mname} no longer reads the plane offsets in a recognised way")
         else:
             want = {"neg": "-equations[..., 3] (distance of the plane from the origin along the normal)",
                     "add": "dots + equations[:, 3] (signed distance, <= 0 inside)",
